@@ -172,7 +172,7 @@ func checkC04(c *km.Ctx) {
 	listOK := primErrNil("verifier list ok", verList, 1)
 	var consumers []claimsConsumer
 	for _, fn := range c.P.AllFuncs {
-		if fn.Pkg == nil || fn.Pkg.Pkg.Path() != KMD {
+		if fn.Pkg == nil || !pkgIsKMD(fn.Pkg) {
 			continue
 		}
 		for _, ci := range km.CallsIn(fn) {
@@ -221,7 +221,7 @@ func checkC04(c *km.Ctx) {
 	}
 	var producers []producer
 	for _, fn := range c.P.AllFuncs {
-		if fn.Pkg == nil || fn.Pkg.Pkg.Path() != KMD {
+		if fn.Pkg == nil || !pkgIsKMD(fn.Pkg) {
 			continue
 		}
 		for _, ci := range km.CallsIn(fn) {
